@@ -111,6 +111,10 @@ def make_copy(tree, route, nskw):
     if route == "clone0":
         return tree.clone(0)
     if route == "extract":
+        # extraction suppresses unifurcations unless told not to (documented default): a source with a unifurcation is
+        # copied with suppress_unifurcations=False, which is the call that promises the same structure
+        if any(len(nd._child_nodes) == 1 for nd in tg.reachable(tree)):
+            return tree.extract_tree(suppress_unifurcations=False)
         return tree.extract_tree()
     raise Fail("harness:route")
 
